@@ -55,7 +55,8 @@ fn preset_hist(flag: u8) -> Vec<Op> {
     ]
 }
 
-/// `recv` target: data[0] selects a configuration preset (and capacity),
+/// `recv` target: data[0] selects a configuration preset (bits 1:0), the response
+/// buffer capacity (bits 6:2) and PEC fix-up (bit 7),
 /// data[1] the context address / history flag, the rest is the input packet.
 /// `mask` lists the properties to evaluate (e.g. ["C09"]).
 pub fn recv_one(data: &[u8], mask: &[&str], known: &Known) -> Vec<Found> {
@@ -65,8 +66,14 @@ pub fn recv_one(data: &[u8], mask: &[&str], known: &Known) -> Vec<Found> {
     }
     let cfg = preset_cfg(data[0], data[1]);
     let hist = preset_hist(data[1]);
-    let bytes = data[2..].to_vec();
-    let cap = 64 + ((data[0] >> 2) as u16) * 3;
+    let mut bytes = data[2..].to_vec();
+    // checksum fix-up: with bit 7 of the selector byte set the PEC is repaired,
+    // so that the fuzzer can reach the logic behind the PEC check by mutating
+    // a single byte (coverage feedback cannot guide it through a CRC)
+    if data[0] & 0x80 != 0 && !bytes.is_empty() {
+        refmodel::fix_pec(&mut bytes);
+    }
+    let cap = 64 + (((data[0] >> 2) & 0x1F) as u16) * 3;
     let on = |id: &str| mask.is_empty() || mask.contains(&id);
     if on("C09") {
         collect(&props::c09::C09, &props::c09::Case { bytes: bytes.clone(), cfg: cfg.clone(), hist: hist.clone() }, known, &mut out);
@@ -285,7 +292,7 @@ pub fn target_body(which: &str, data: &[u8]) {
 pub fn recv_seed_corpus() -> Vec<Vec<u8>> {
     let mut v = Vec::new();
     for (i, p) in props::c10::base_packets().into_iter().enumerate() {
-        let mut d = vec![(i as u8) & 3, 0x23 | if i % 3 == 0 { 0x80 } else { 0 }];
+        let mut d = vec![((i as u8) & 3) | if i % 2 == 0 { 0x80 } else { 0 }, 0x23 | if i % 3 == 0 { 0x80 } else { 0 }];
         d.extend_from_slice(&p);
         v.push(d);
     }
